@@ -44,3 +44,11 @@ Proof.
   exists s. split; [exists tr_pinned_deadlock; exact E|].
   vm_compute in E. inversion E; subst. vm_compute. repeat split; auto 20.
 Qed.
+
+(* The emitter's unlocked read of _last_item and its enqueue are separate steps: after the emitter passed its
+   flag check (LECheck) the dispatcher may get the identical previous event (which resets _last_item); the
+   emitter then cannot skip any more (LESkip disabled) and the identical event is queued again (LEPut). *)
+Definition tr_get_between_read_and_put : list label :=
+  [LCall 0%N (CSchedule 1%N 2%N); LStep A0; LStep A0; LStep A0;
+   LCall 0%N CStart; LStep A0; LOrd A0 [0%nat]; LStep A0; LStep A0; LStep A0; LStep A0; LStep A0; LStep A0;
+   LECheck 0%nat; LEPut 0%nat 7%N; LECheck 0%nat; LStep TD; LStep TD].
